@@ -529,7 +529,7 @@ pub fn run(ctx: &mut Ctx) -> Result<(), Violation> {
     ctx.rule = "Call histories (proptest, shrinking): sequences of box (5 forms) / seal / beforenm / secretbox / open over a pool of 3 identities, so adjacent calls share one key half but not the other; every ciphertext must equal libsodium's and every pending ciphertext must open later in any order. Enumerated: every message length 0..=L plus {1023,1024,1025,4095,4096,4097,65535,65537} x K seeded (key, nonce, key pairs from seeds via libsodium, content class) x EVERY sealing form: classic secretbox/box/afternm in easy, detached, in-place; seal; object API encrypt/precalc_encrypt/seal with to_vec/to_bytes/into_vec/into_parts/from_bytes over array, StackByteArray, Vec, &[u8] containers (heap, locked, read-only locked containers in the nightly sub-run). Oracle: tag and ciphertext bytes == libsodium's for the same inputs; beforenm == libsodium; the resulting wire opens to the original under libsodium and under EVERY dryoc opener (20 forms); sealed boxes (ephemeral key chosen by dryoc): layout epk||box(msg, BLAKE2b-24(epk||rpk)) checked with the reference and opened by libsodium, libsodium-sealed opened by dryoc. Non-trivial: message length >= 1; distinct = hash(len, key, nonce, seeds, part).".into();
     ctx.assumptions = vec!["libsodium 1.0.18 is the byte-level reference".into(), "key pairs are derived from seeds by libsodium (honest pairs)".into()];
     let l = ctx.tier.pick(600usize, 1100);
-    let k = ctx.tier.pick(if nightly_part { 2usize } else { 6 }, if nightly_part { 2 } else { 8 });
+    let k = ctx.tier.pick(if nightly_part { 2usize } else { 6 }, if nightly_part { 4 } else { 24 });
     let mut lens: Vec<usize> = (0..=if nightly_part { l.min(ctx.tier.pick(320, 600)) } else { l }).collect();
     lens.extend_from_slice(&[1023, 1024, 1025, 4095, 4096, 4097]);
     if !nightly_part || ctx.tier == Tier::Thorough {
@@ -570,7 +570,7 @@ pub fn run(ctx: &mut Ctx) -> Result<(), Violation> {
         Ok(())
     })?;
     if !nightly_part {
-        let n = ctx.tier.pick(40_000u32, 400_000);
+        let n = ctx.tier.pick(40_000u32, 2_000_000);
         let shards: Vec<u64> = (0..ctx.threads as u64).collect();
         let per = n / ctx.threads.max(1) as u32 + 1;
         ctx.par_each(&shards, |_, &sh, ev| {
